@@ -362,10 +362,14 @@ def verify_contract(cdef: ContractDef, tier="quick") -> dict:
                     continue
                 if isinstance(g, bool):
                     g = z3.BoolVal(g)
-                sv = z3.Solver()
-                sv.set("timeout", 5000)
-                sv.add(*axioms, *s.pc, g)
-                if sv.check() == z3.sat:
+                from .solve import check_sat
+
+                st_, _m, _b, _dt, _q = check_sat([*axioms, *s.pc, g], z3_ms=2000, cvc5_ms=5000)
+                if st_ == "unknown" and axioms:
+                    # quantified axioms often make a *sat* answer unreachable; the path
+                    # condition and the preconditions themselves must still be satisfiable
+                    st_, _m, _b, _dt, _q = check_sat([*s.pc, g], z3_ms=2000, cvc5_ms=5000)
+                if st_ == "sat":
                     hit = True
                     break
             cov.append({"label": label, "sat": hit})
